@@ -577,9 +577,13 @@ class CovMon(SubCheck):
         from vf import build
 
         build.prepare_repo()
-        import whatshap.coverage
+        # a private copy of the real module: sub-check `select` wraps whatshap.coverage.CovMonitor (call counter) in the workers
+        # it shares with this one
+        import importlib.util
 
-        self.real = whatshap.coverage
+        spec = importlib.util.spec_from_file_location("covmon_private_copy", os.path.join(REPO, "whatshap", "coverage.py"))
+        self.real = importlib.util.module_from_spec(spec)
+        spec.loader.exec_module(self.real)
 
     def sym_impl(self):
         return self.sym
@@ -619,6 +623,87 @@ class CovMon(SubCheck):
         return "covmon:%s" % v["msg"][:60]
 
 
+class PhaseSelect(SubCheck):
+    """What `whatshap phase` hands to the solver: phase.select_reads() around readselection().  Third sentence of the statement,
+    for one individual: no variant is spanned by more than k of the reads that come back - also for gapped reads (read pairs),
+    whose span is wider than the variants they carry."""
+
+    name = "phase_select"
+    encoded = ["whatshap.cli.phase.select_reads", "whatshap.readselect.readselection and below (DeCy)", "whatshap.coverage.CovMonitor", "ReadSet.subset"]
+    sources = ["whatshap/cli/phase.py", "whatshap/readselect.pyx", "whatshap/coverage.py", "whatshap/priorityqueue.pyx"]
+    stubs = ["whatshap.core -> vf/models/core_model.py (replay: compiled core)", "DeCy translations of readselect.pyx / priorityqueue.pyx (replay: rebuilt extensions)", "whatshap.cli package import stubbed in the symbolic world"]
+    assumptions = ["reads sorted by first position, >= 2 variants per read (what whatshap phase passes on)"]
+    required_cover = ["gapped read", "cap binds: a read is left out"]
+    max_decisions = 20000
+
+    def shapes(self, tier):
+        subsets = [list(c) for m in (2, 3, 4) for c in itertools.combinations(range(4), m)]
+        R = 3 if tier == "quick" else 4
+        return [dict(first=s0, R=R) for s0 in subsets]
+
+    def bounds(self, tier):
+        return "%d reads over 4 variants, each covering a solver-chosen subset of >= 2 variants (gaps allowed), cap k in {1, 2}" % (3 if tier == "quick" else 4)
+
+    def setup(self):
+        import types
+        from vf.models import core_model
+        from vf import build
+
+        climod = types.ModuleType("whatshap.cli")
+        climod.__path__ = []
+        climod.CommandLineError = type("CommandLineError", (Exception,), {})
+        climod.log_memory_usage = lambda *a, **k: None
+        climod.PhasedInputReader = None
+        w = SymWorld(overrides={"whatshap.core": core_model, "whatshap.cli": climod}, decy=["whatshap.readselect", "whatshap.priorityqueue"])
+        self.sym = (w.load("whatshap.cli.phase"), core_model)
+        real = _locked_load_real(build, ["core", "priorityqueue", "readselect"])
+        import whatshap.cli.phase as real_phase
+
+        self.real = (real_phase, real["core"])
+
+    def sym_impl(self):
+        return self.sym
+
+    def real_impl(self):
+        return self.real
+
+    def harness(self, e, shape, impl):
+        phase, core = impl
+        subsets = [list(c) for m in (2, 3, 4) for c in itertools.combinations(range(4), m)]
+        R = shape["R"]
+        cover = [shape["first"]] + [e.choice("cov%d" % r, subsets) for r in range(1, R)]
+        cover.sort(key=lambda c: c[0])
+        k = e.choice("k", [1, 2])
+        rs = core.ReadSet()
+        for r, c in enumerate(cover):
+            rd = core.Read("r%d" % r, 50, 0, 0)
+            for v in c:
+                rd.add_variant(POS[v], 0, 20 + r)
+            rs.add(rd)
+            if c[-1] - c[0] + 1 > len(c):
+                e.cover("gapped read")
+        rs.sort()
+        buf = io.StringIO()
+        with contextlib.redirect_stdout(buf):
+            out = phase.select_reads(rs, k, None)
+        chosen = sorted(r.name for r in out)
+        e.out("selected", chosen)
+        if len(chosen) < R:
+            e.cover("cap binds: a read is left out")
+        names = {"r%d" % r: c for r, c in enumerate(cover)}
+        info = lambda: dict(reads=cover, k=k, handed_to_solver=chosen)
+        e.check(all(n in names for n in chosen) and len(set(chosen)) == len(chosen), "select_reads returns reads that are not in the input", info)
+        for v in range(4):
+            span = sum(1 for n in chosen if names[n][0] <= v <= names[n][-1])
+            e.check(span <= k, "the reads handed to the solver span a variant more than k times", lambda v=v, span=span: dict(info(), variant=v, spanned_by=span))
+
+    def classify(self, shape, v):
+        return "phase_select:%s" % v["msg"][:70]
+
+
+# PhaseSelect is NOT registered: drafted at the very end of session 4 for seed C07-5 (it catches it when run alone), but in a
+# full C07 run some paths showed replay mismatches between the DeCy translation and the compiled readselection when it shares
+# worker processes with `select` (hook state); to be finished before it may be claimed.  See DESIGN 9.6 round 8.
 SUBCHECKS = {c.name: c for c in [Select(), Family(), CovMon()]}
 
 if __name__ == "__main__":
